@@ -134,7 +134,7 @@ Definition bus_mismatch (c : bus_case) : bool :=
   negb (list_eqb bevent_eqb tr (b_tr c) && bres_eqb r (b_res c)).
 Definition bus_violates (c : bus_case) : bool :=
   let t := b_tab c in
-  negb (bus_monitor (t_name t) (t_enc t) N.eqb (bus_cfg_of c) (bus_ctx c) (b_val c) (b_modify c)
+  negb (bus_monitor (t_name t) (t_enc t) val_eqb N.eqb (bus_cfg_of c) (bus_ctx c) (b_val c) (b_modify c)
                     (b_tr c) (b_res c)).
 Definition bus_mismatches (cs : list bus_case) : list nat := positions (map bus_mismatch cs).
 Definition bus_violations (cs : list bus_case) : list nat := positions (map bus_violates cs).
